@@ -44,3 +44,19 @@ Example C05_ex :
   let '(w1, r, c1) := from_bytes w0 [7; 8; 9] in let '(w2, r2, c2) := clone w1 r in let '(w3, r3, c3) := receive w2 r2 in
   (read w3 r3, c1 ++ c2 ++ c3) = ([7; 8; 9], [CFtruncate 3; CMmap 3; CDup; CMmap 3; CMmap 3]).
 Proof. vm_compute. reflexivity. Qed.
+
+(* ---- Clone::clone_from (reached through Vec::clone_from / Option::clone_from as well): a new handle on the source's object
+   replaces the destination; no object is written, so no other handle reads anything else than before ---- *)
+Theorem C05_clone_from : forall w d s, let '(w', r, _) := clone_from w d s in
+  read w' r = read w s /\ (forall x, read w' x = read w x) /\ objs w' = objs w.
+Proof. exact clone_from_reads. Qed.
+Print Assumptions C05_clone_from.
+Theorem C05_clone_from_balanced : forall w d s, let '(w', r, _) := clone_from w d s in
+  fds w' = fds w /\ maps w' = maps w + (if r_mapped s then 1 else 0) - (if r_mapped d then 1 else 0) /\
+  r_len r = r_len s /\ r_obj r = r_obj s.
+Proof. exact clone_from_balanced. Qed.
+Print Assumptions C05_clone_from_balanced.
+Theorem C05_clone_from_calls : forall w d s, let '(_, _, cs) := clone_from w d s in
+  cs = CDup :: (if r_mapped s then [CMmap (r_len s)] else []) ++ (if r_mapped d then [CMunmap] else []) ++ [CClose].
+Proof. exact clone_from_calls. Qed.
+Print Assumptions C05_clone_from_calls.
